@@ -250,6 +250,9 @@ def stopVerb (s : Stop.State) (ws : List String) : Option (Stop.State × String)
   | ["yield"] => some (s, "ok")
   | ["rel", k] => k.toNat?.map fun _ => (s, "ok")
   | ["sleep", ms] => ms.toNat?.map fun _ => (s, "ok")
+  -- an oversized message: refused with an error that answers no call, or discarded while draining —
+  -- no step of the machine (in particular NOT a `peerGone`: it does not end the connection's drain)
+  | ["junk", c] => c.toNat?.map fun _ => (s, "ok")
   | ["wsub", k] => k.toNat?.map fun _ => (s, "ok")
   | ["wres", r] => if r == "yes" || r == "no" then some (s, "ok") else none
   | [w, k, r] =>
